@@ -15,7 +15,7 @@ LEVEL = "exploration"
 RULE = ("hostile inputs - random bytes (several distributions, 0..64 KiB), valid streams with bit flips / byte inserts / deletes "
         "/ splices / truncation, and structure-aware hostile streams from the independent wire encoder (declared frame, row and "
         "string lengths up to 2^63, table sizes up to 2^32, 10^5 entries, quoted triples nested past the protobuf recursion "
-        "limit, options rows in odd places, stream names / strings holding format directives with huge field widths on error paths, version-2 streams declaring one prefix label 3-200 times with different namespaces, gzip/zlib/bz2/xz/deflate members that would inflate to 0.3-64 MB, options rows with enum/version values the schema does not name, well-formed streams whose strings (language tag, lexical form, datatype, name, prefix, blank-node label, stream name, namespace name) are long single-class runs ending in one odd character, 10^3..10^6 empty frames alone and in front of a well-formed frame (3*10^5 of them always through all six entry points, 10^6 through two), invalid UTF-8, unknown fields, groups, one 16-64 KiB prefix (or name) entry combined with thousands of short entries overwriting 8 slots of the other table - through the entry points that keep no statement) - are fed from BytesIO, "
+        "limit, options rows in odd places, stream names / strings holding format directives with huge field widths on error paths, version-2 streams declaring one prefix label 3-200 times with different namespaces, gzip/zlib/bz2/xz/deflate members that would inflate to 0.3-64 MB, options rows with enum/version values the schema does not name, well-formed streams whose strings (language tag, lexical form, datatype, name, prefix, blank-node label, stream name, namespace name) are long single-class runs ending in one odd character, 10^3..10^6 empty frames alone and in front of a well-formed frame (3*10^5 of them always through all six entry points, 10^6 through two), invalid UTF-8, unknown fields, groups, one 16-64 KiB prefix (or name) entry combined with thousands of short entries overwriting 8 slots of the other table - through the entry points that keep no statement; 200-400 namespace declarations followed by 3000-20000 tiny frames) - are fed from BytesIO, "
         "real files and non-seekable raw / buffered sources to the six parse entry points inside a watchdogged child process with faulthandler. Per input the "
         "child journals start/end, outcome, CPU time, a logical step count (sys.monitoring PY_START inside pyjelly) and the "
         "growth of the resident high-water mark. Violations: interpreter killed by a signal; a non-Exception BaseException; "
@@ -113,7 +113,7 @@ def hostile(rng):
     big = rng.choice([1 << 20, (1 << 31) - 1, 1 << 31, 1 << 32, 1 << 40, 1 << 62, (1 << 63) - 1, (1 << 64) - 1])
     kind = rng.choice(["frame-length", "row-length", "string-length", "table-size", "many-entries", "deep-nesting",
                        "odd-options", "empty-frames", "bad-utf8", "unknown-fields", "many-metadata", "nondelimited-huge",
-                       "entry-id-huge", "ref-huge", "options-repeat-flood", "awkward-strings", "awkward-strings", "enum-values", "compressed-bomb", "namespace-redeclared", "format-directive", "long-entry-many-slots"])
+                       "entry-id-huge", "ref-huge", "options-repeat-flood", "awkward-strings", "awkward-strings", "enum-values", "compressed-bomb", "namespace-redeclared", "format-directive", "long-entry-many-slots", "declarations-then-many-frames"])
     head = wire.enc_stream([{"rows": [("options", _opts())]}], True)
     if kind == "frame-length":
         return kind, rng.choice([b"", head]) + wire.enc_varint(big) + rng.randbytes(rng.randint(0, 40))
@@ -253,10 +253,26 @@ def hostile(rng):
                 ("triple", {"s": ("iri", rng.choice([0, 9, (1 << 32) - 1]), rng.choice([17, (1 << 32) - 1])),
                             "p": ("bnode", "b"), "o": ("lit", "x", "dt", rng.choice([0, 9, (1 << 32) - 1]))})]
         return kind, wire.enc_stream([{"rows": rows}], True)
+    if kind == "declarations-then-many-frames":
+        return kind, declarations_then_frames(rng.choice([200, 300, 400]), rng.choice([3000, 20000]), rng.choice(["empty", "empty", "metadata"]))
     if kind == "long-entry-many-slots":
         return kind, long_entry_many_slots(rng.choice([16, 32, 48]) << 10, rng.choice([1000, 3000]), rng.choice(["prefix", "prefix", "name"]))
     rows = [("options", _opts())] * rng.choice([100, 5000])
     return "options-repeat-flood", wire.enc_stream([{"rows": rows}], True)
+
+
+def declarations_then_frames(d: int, n: int, frames: str) -> bytes:
+    """A first frame with d namespace declarations followed by n tiny frames (zero-length keep-alives, or frames that carry
+    one metadata entry): work per later frame must not grow with what EARLIER frames declared."""
+    rows = [("options", _opts(version=2, max_prefix_table_size=8, max_name_table_size=8))]
+    for i in range(d):
+        rows += [("prefix", {"id": (i % 8) + 1, "value": f"http://e/{i}/"}), ("name", {"id": (i % 8) + 1, "value": ""}),
+                 ("namespace", {"name": f"p{i}", "value": ("iri", (i % 8) + 1, (i % 8) + 1)})]
+    head = wire.enc_stream([{"rows": rows}], True)
+    if frames == "empty":
+        return head + b"\x00" * n
+    one = wire.enc_stream([{"rows": [], "metadata": [("k", b"v")]}], True)
+    return head + one * n
 
 
 def long_entry_many_slots(length: int, n: int, which: str) -> bytes:
@@ -315,6 +331,8 @@ def make_inputs(rng, n: int, first_batch: bool = False) -> list:
             cls, name, data = "hostile", "option-field-extreme", wire.enc_stream([{"rows": rows}], True)
         elif first_batch and k == 2 + len(FIXED_DIRECTIVES) + len(FIXED_OPTION_EXTREMES):
             cls, name, data = "hostile", "long-entry-many-slots", long_entry_many_slots(64 << 10, 4000, "prefix")
+        elif first_batch and k == 3 + len(FIXED_DIRECTIVES) + len(FIXED_OPTION_EXTREMES):
+            cls, name, data = "hostile", "declarations-then-many-frames", declarations_then_frames(300, 20000, "empty")
         elif x < .3:
             cls, data, name = "random", random_bytes(rng), "random"
         elif x < .65:
@@ -326,6 +344,8 @@ def make_inputs(rng, n: int, first_batch: bool = False) -> list:
         if first_batch and k < 2:
             entries = list(ENTRY_NAMES) if k == 0 else ["generic:flat", "rdflib:grouped"]
         elif first_batch and k < 2 + len(FIXED_DIRECTIVES) + len(FIXED_OPTION_EXTREMES):
+            entries = list(ENTRY_NAMES)
+        if name == "declarations-then-many-frames":
             entries = list(ENTRY_NAMES)
         if name == "long-entry-many-slots":
             entries = ["generic:flat", "rdflib:flat", "generic:grouped", "rdflib:grouped"]     # consumers that keep nothing
